@@ -58,7 +58,7 @@ PROPS = {
     'C09': dict(verus=['ser'], kani=KANI_SER + ['intpack_u24nu8'], bounded=True,
                 chain='byte-wise: deserialize_unchecked(serialize(a) ++ t) == (a, t) and re-serialisation reproduces the bytes (P: ser, for every V satisfying the trait contract) <- primitive LE impls (K, 13 harnesses); char-wise automaton and CodeMapper: B',
                 assumed=['user-defined V: satisfies the Serializable trait contract (ser/deser inverse, fixed width < 256 MiB)', 'derived PartialEq is structural']),
-    'C10': dict(verus=['nfa_add', 'helper', 'build_bw', 'build_cw'], kani=[], bounded=True,
+    'C10': dict(verus=['nfa_add', 'helper', 'build_bw', 'build_cw'], kani=['num_bytes_labels'], bounded=True,
                 chain='accept/reject: NfaBuilder::add rejects exactly the empty pattern and every pattern seen before, for every match kind incl. leftmost-first shadowing (P: nfa_add, for both label types); the wrappers that call add in a loop and the index conversion: B. never panics: every assert!/debug_assert!/unwrap/index/arithmetic in build_helper.rs and in the byte-wise double-array construction (bytewise/builder.rs) is a discharged obligation for every num_free_blocks >= 1 and every tree-shaped NFA (P: helper, build_bw); both variants (P: helper, build_bw, build_cw); accept/reject (add), NFA passes, CodeMapper::new and the build wrappers: B',
                 assumed=[NFA_ASSUMED, DA_ASSUMED]),
     'C11': dict(verus=['search_bw', 'iter_bw', 'helper', 'build_bw', 'build_cw'], kani=[], bounded=True,
